@@ -37,6 +37,7 @@ ASSUMPTIONS = [
     "IP literals: strict dotted quads and RFC 4291 text forms (rendered by the reference from the packed bytes)",
     "an IPv6 literal with an RFC 4007 zone id ('fe80::1%eth0') has no ATYP 4 encoding: it must be refused with an error, or carried verbatim as a DOMAINNAME; a request for the address without its zone is a different target",
     "host names are compared byte for byte, also .onion names (no case folding / normalisation is allowed to change what is sent); a non-ASCII name stays un-encodable even if lower()/upper()/casefold()/NFKC would map it to ASCII (U+212A, U+017F, fullwidth letters ...)",
+    "one _SocksMachine serves one connection attempt (its docstring: 'a SOCKS state machine to make a single request'; its one-shot when_done() has fired once the connection is lost; _TorSocksProtocol builds a fresh machine per connection and calls connection() once): re-connecting a machine that already lost its connection is not reachable through any entry point and is not driven",
     "delivery is never re-entrant: feed_data/dataReceived is not called from inside transport.write or a send_data drain callback (Twisted transports never do; the quantifier of C06 is over inputs only)",
     "CONNECT and RESOLVE_PTR of an IP literal must use ATYP 1 / 4 with the packed address; RESOLVE of an IP literal may also carry the literal text as ATYP 3 (Tor accepts both)",
     "the port of RESOLVE / RESOLVE_PTR is not an input of the public API: the PORT field may be 0 or the port handed to _SocksMachine",
